@@ -2,6 +2,7 @@ import Lean.Data.Json
 import GristModel
 import Driver.Treeview
 import Driver.Engine
+import Driver.Identifiers
 open Lean
 
 namespace Grist.Driver
@@ -10,6 +11,7 @@ namespace Grist.Driver
 def handleStateless (m : String) (j : Json) : Except String Json :=
   match m with
   | "treeview" => handleTreeview j
+  | "identifiers" => handleIdentifiers j
   | _ => throw s!"unknown model {m}"
 
 structure AllState where
